@@ -1,25 +1,33 @@
 """C14 — the call-state cache never changes a request's outcome.
 
 (a) xh  : the real `_CallStateCache` (get / put / _identity, real OrderedDict, integer clock) against
-          a specification map over symbolic operation sequences: a `get` returns either None or
-          exactly the value last `put` under that (call id, identity) and not yet expired; the
-          cache never holds more than `max_entries`; capacity 0 never hits; a fresh put is visible.
+          a specification map over symbolic operation sequences and from ANY cache state: a hit returns
+          the value last `put` under exactly that (call id, identity) - never another identity's or
+          another call's - and not later than put-time + ttl.  Safety side only: misses, admission,
+          eviction and the number of entries are free (a cache that never hits satisfies C14).
+          Replay: END TO END on real code (real crypto; a hit that is too old: warm vs empty-cache
+          worker around the call token's expiry; a hit under the wrong key: cross-identity and
+          two-streams presentations on a warm worker) - a divergence that changes no request's outcome
+          stays inconclusive.
 (b) xh  : transparency, one inductive step — a worker whose cache holds an *arbitrary* state that
           satisfies the invariant I answers a continuation exactly like a cold worker (capacity 0):
-          same served state / call, or the same 400.
+          same served state / call, or the same 400; requester and stream owner range over anonymous,
+          an ordinary principal and the anonymous lookalike ('', 'anonymous').
           I = every entry (cid, ident) -> r is what opening the call token minted for (cid, ident)
           yields, and (ttl > 0) the entry does not outlive that call token.
 (b') xh : ... and the step re-establishes I (the `put` on the miss path, the warm-up `put` of
-          `_run_stream_init_sync`).
-(c) smt : `_CallStateCache._identity` is *not* injective; decided: the only collisions between
-          identities with NUL-free domains are anonymous vs authenticated ('', 'anonymous').
-          Unreachable as a cross-identity hit because the call id is authenticated under the
-          injective AAD first (C12 a, d) and call ids are never reused — recorded as an observation.
+          `_run_stream_init_sync`).  Replay: the worker that took the step keeps answering that
+          stream's (and the other stream's) continuations like an empty-cache worker - served stream
+          id and call state included - at the counterexample's time and around the token expiry.
+(c) smt : no two distinct identities (NUL-free domains) share BOTH the cache key's identity half and
+          the cursor AAD, so a hit never yields call state minted for another caller (witness replayed
+          end to end).  That `_identity` alone is not injective (anonymous vs ('', 'anonymous')) is
+          reported as an observation only: it changes no outcome and need not stay that way.
 """
 
 from __future__ import annotations
 
-from engine.api import cond, is_open, pick, task
+from engine.api import HarnessModelError, cond, is_open, pick, task
 
 from harness import _tokens_common as tc
 from vgi_rpc.http.server import _app_stream as aps
@@ -30,13 +38,14 @@ PROPERTY = "C14"
 ENCODED = [st._CallStateCache.get, st._CallStateCache.put, st._CallStateCache._identity, aps._unpack_and_recover_state, aps._resolve_call_from_token, aps._run_stream_init_sync]
 BOUNDS = (
     "(a) histories of <= %d operations over 3 keys (2 call ids x 2 identities), capacity 1..2, and one inductive step from ANY cache state (<= capacity entries, any LRU order, any expiry) "
-    "with capacity 0..2; unbounded integer clock/ttl; (b) 2 streams opened at t=100 (stream 1 by 3 possible owners), cursor slot stream 1 / stream 2 (refreshed at any t1) / garbage, "
+    "with capacity 0..2; unbounded integer clock, any integer ttl > 0; (b) 2 streams opened at t=100 (3 possible owners x 3 possible requesters), cursor slot stream 1 / stream 2 (refreshed at any t1) / garbage, "
     "call slot = that stream's call token, arbitrary invariant-satisfying cache of capacity 2, any request time >= t1, ttl 0 or 50; (c) all identities, unbounded lengths" % pick(3, 4)
 )
 OUTSIDE = (
     "requests that do not echo a server-minted call token (absent / garbage / kind-swapped): on a hit the call token is not consulted at all, so such a request is served by a warm "
     "worker and rejected by a cold one - documented in _unpack_and_recover_state ('may be None when the cache is expected to hit; a miss then fails') and excluded from the transparency claim; "
-    "float clocks (the cache stores float expiry times; integers here); concurrent access to the cache (its lock); more than two streams"
+    "float clocks (the cache stores float expiry times; integers here); concurrent access to the cache (its lock); more than two streams; a cache constructed with ttl <= 0 (never done: _HttpRpcApp falls back to 3600); "
+    "how many entries the cache holds (memory bound, not an outcome)"
 )
 ASSUMPTIONS = [*tc.TOKEN_STUBS, *tc.DISPATCH_STUBS, "call ids are never reused (os.urandom(16) stub returns fresh values)"]
 
@@ -71,34 +80,34 @@ def _cache_kw(fn) -> dict:  # type: ignore[no-untyped-def]
     return {"method_name": "m"} if tc._takes(fn, "method_name") else {}
 
 
-def _replay_cache(args: dict) -> str | None:
-    """The un-stubbed class is what the condition already runs; replay = the same run outside CrossHair."""
-    return None if _cache_run(args["cap"], args["ttl"], args["n"], args["ops"]) else "the real _CallStateCache diverged from the specification map (see the counterexample arguments)"
+def _step(cache, spec: dict, cap: int, ttl: int, now: int, is_put: bool, ki: int, serial: int) -> str | None:  # type: ignore[no-untyped-def]
+    """One operation on the real cache and on the specification map.  Returns why a HIT is wrong, None if fine.
 
-
-def _step(cache, spec: dict, cap: int, ttl: int, now: int, is_put: bool, ki: int, serial: int) -> bool:  # type: ignore[no-untyped-def]
-    """One operation on the real cache and on the specification map; False = divergence."""
+    Only the safety side is judged - what the property needs from the cache: a hit returns the value last put under
+    exactly that (call id, identity), and not after put-time + ttl (the bound that keeps an entry from outliving the
+    call token it stands for, see (b')).  Misses are always fine (a cache that never hits satisfies C14); how many
+    entries the cache holds is not the property's subject."""
     cid, ident = _KEYS[ki]
     if is_put:
         v = _Val(serial)
         cache.put(cid, ident, v, now, **_cache_kw(cache.put))
         spec[ki] = (now + ttl, v)
-        # a fresh entry is visible at once unless capacity or ttl forbid it
-        got = cache.get(cid, ident, now, **_cache_kw(cache.get))
-        if cap >= 1 and ttl > 0 and got is not v:
-            return False
-        if (cap <= 0 or ttl <= 0) and got is not None:
-            return False
-    else:
-        got = cache.get(cid, ident, now, **_cache_kw(cache.get))
-        if got is not None:
-            want = spec.get(ki)
-            if want is None or got is not want[1] or not (want[0] > now):
-                return False
-    return len(cache._entries) <= max(cap, 0)
+    got = cache.get(cid, ident, now, **_cache_kw(cache.get))
+    if got is None:
+        if is_put and cap >= 1 and ttl > 0:
+            # not a violation (admission policies are legitimate) - but then this item does not exercise the hit paths
+            raise HarnessModelError("a fresh put into a cache with capacity >= 1 and ttl > 0 is not visible: hit paths not exercised")
+        return None
+    want = spec.get(ki)
+    if want is not None and got.n == want[1].n:
+        return None if want[0] > now else "stale-hit"
+    for kj, (_exp, vj) in spec.items():
+        if kj != ki and vj.n == got.n:
+            return "cross-identity-hit" if _KEYS[kj][0] == cid else "cross-call-hit"
+    return "overwritten-value-hit"
 
 
-def _cache_run(cap: int, ttl: int, n: int, ops) -> bool:  # type: ignore[no-untyped-def]
+def _cache_run(cap: int, ttl: int, n: int, ops) -> str | None:  # type: ignore[no-untyped-def]
     cache = st._CallStateCache(max_entries=cap, ttl=ttl)
     spec: dict = {}
     now = 0
@@ -107,35 +116,121 @@ def _cache_run(cap: int, ttl: int, n: int, ops) -> bool:  # type: ignore[no-unty
             break
         is_put, ki, dt = ops[k]
         now = now + dt
-        if not _step(cache, spec, cap, ttl, now, is_put, _pick(ki, 3), k + 1):
-            return False
-    return True
+        why = _step(cache, spec, cap, ttl, now, is_put, _pick(ki, 3), k + 1)
+        if why is not None:
+            return why
+    return None
 
 
-@cond(q=60, t=300, encoded=[st._CallStateCache.get, st._CallStateCache.put, st._CallStateCache._identity], bound="histories of <= %d operations over 3 keys (2 call ids, 2 identities), capacity 1..2 (0 in the inductive item), any integer ttl, clock advances >= 0" % _NOPS,
-      replay=_replay_cache, signature=lambda a, c: "C14:cache:spec-map")
+def _norm(o):  # type: ignore[no-untyped-def]
+    """What a client can tell apart: served stream / call state, or the rejection."""
+    if o[0] == "ok":
+        return ("ok", o[2].stream_id, None if o[2].call_state is None else o[2].call_state.tag)
+    return tuple(o[:3])
+
+
+_E2E_TTL = 50
+
+
+def _e2e_entry_lifetime(clear_after_init: bool) -> str | None:
+    """Real functions, real crypto, substituted clock (the hook the property allows): one stream opened at t0 with token
+    ttl 50 on worker W (or, `clear_after_init`, on another node); W serves a continuation at t0+h (a hit, or a miss that
+    re-creates the entry) and hands out a fresh cursor; the stream's next continuation is then sent, at several times
+    around the call token's expiry, to W and to a worker with an empty cache.  Any difference is a C14 violation."""
+    t0, ttl = _T0, _E2E_TTL
+    who = AuthContext(domain="d", authenticated=True, principal="p")
+    for h in (1, ttl // 2, ttl - 1, ttl):
+        with tc.RealWorld({"m": tc.RealStateA}, _KEY, ttl, 8, now=t0) as w, tc.RealWorld({"m": tc.RealStateA}, _KEY, ttl, 0, now=t0) as cold:
+            s = w.init("m", who)
+            if clear_after_init:
+                w.app._call_state_cache.clear()
+            w.clock.now = cold.clock.now = t0 + h
+            first = w.unpack("m", who, s["cursor"], s["call"])
+            if first[0] != "ok":
+                continue
+            mkw = {"method_name": "m"} if tc._takes(st._mint_cursor_token, "method_name") else {}
+            cursor2, _sb = st._mint_cursor_token(first[1], tc.RealStateA, s["call_id"], _KEY, who, **mkw)  # the turn's refreshed cursor
+            for t in sorted({t0 + h, t0 + ttl, t0 + ttl + 1, t0 + h + ttl - 1, t0 + h + ttl, t0 + h + ttl + 1}):
+                w.clock.now = cold.clock.now = t
+                on_cold = cold.unpack("m", who, cursor2, s["call"])  # first: W's own answer may refresh its entry
+                on_w = w.unpack("m", who, cursor2, s["call"])
+                if _norm(on_w) != _norm(on_cold):
+                    return (
+                        f"stream opened at t={t0} with token_ttl={ttl}{' on another node' if clear_after_init else ''}; worker W served a continuation at t={t0 + h} and refreshed the cursor; "
+                        f"the next continuation at t={t} is answered {_norm(on_w)!r} by W and {_norm(on_cold)!r} by a worker with an empty cache"
+                    )
+    return None
+
+
+def _e2e_cross_hits() -> str | None:
+    """Real functions, real crypto: can a warm worker's cache hand a requester something that is not its own stream's?
+    (i) y presents x's cursor (x != y), without and with x's call token; (ii) one caller's two streams, each cursor
+    presented without and with its own call token - what is served must be that very stream's."""
+    ids = (None, AuthContext(domain="d", authenticated=True, principal="p"), AuthContext(domain="", authenticated=True, principal="anonymous"), AuthContext(domain="d", authenticated=True, principal="q"))
+    for x in ids:
+        for y in ids:
+            if tc.real_identity(x) == tc.real_identity(y):
+                continue
+            for with_call in (False, True):
+                with tc.RealWorld({"m": tc.RealStateA}, _KEY, _E2E_TTL, 8, now=_T0) as w:
+                    s = w.init("m", x)
+                    w.init("m", y)
+                    got = w.unpack("m", y, s["cursor"], s["call"] if with_call else None)
+                if got[0] == "ok":
+                    return f"stream opened by {x!r} on a warm worker; requester {y!r} presenting its cursor{' and call token' if with_call else ''} is served {_norm(got)!r}"
+    for who in ids[:2]:
+        with tc.RealWorld({"m": tc.RealStateA}, _KEY, _E2E_TTL, 8, now=_T0) as w:
+            ss = [w.init("m", who), w.init("m", who)]
+            for s in ss:
+                for call in (None, s["call"]):
+                    got = w.unpack("m", who, s["cursor"], call)
+                    if got[0] == "ok" and _norm(got) != ("ok", s["stream_id"], s["tag"]):
+                        return f"caller {who!r} opened two streams on a warm worker; the cursor of {s['stream_id']} is served as {_norm(got)!r}"
+    return None
+
+
+def _replay_cache_reason(why: str | None, args: dict) -> str | None:
+    """Independent, end-to-end judgement for a divergence the condition found on the cache class: it is a C14 violation
+    only if some request's outcome changes.  (A key that separates less than the condition demands may still be harmless
+    because the call id is authenticated under the requester's AAD before any lookup.)"""
+    if why is None:
+        return None
+    return _e2e_entry_lifetime(False) or _e2e_entry_lifetime(True) or _e2e_cross_hits()
+
+
+def _replay_cache(args: dict) -> str | None:
+    return _replay_cache_reason(_cache_run(args["cap"], args["ttl"], args["n"], args["ops"]), args)
+
+
+def _sig_cache(prefix: str, run):  # type: ignore[no-untyped-def]
+    def sig(a: dict, c) -> str:  # type: ignore[no-untyped-def]
+        try:
+            return f"{prefix}:{run(a) or 'unclassified'}"
+        except Exception:  # noqa: BLE001
+            return f"{prefix}:unclassified"
+
+    return sig
+
+
+@cond(q=60, t=300, encoded=[st._CallStateCache.get, st._CallStateCache.put, st._CallStateCache._identity], bound="histories of <= %d operations over 3 keys (2 call ids, 2 identities), capacity 1..2 (0 in the inductive item), any integer ttl > 0, clock advances >= 0" % _NOPS,
+      replay=_replay_cache, signature=_sig_cache("C14:cache:spec-map", lambda a: _cache_run(a["cap"], a["ttl"], a["n"], a["ops"])))
 def cache_matches_specification_map(cap: int, ttl: int, n: int, ops: _OPS) -> bool:
     """
-    pre: 1 <= cap <= 2 and 0 <= n <= _NOPS
+    pre: 1 <= cap <= 2 and 0 <= n <= _NOPS and ttl > 0
     pre: all(0 <= o[1] <= 2 and o[2] >= 0 for o in ops)
     post: _
     """
-    return _cache_run(cap, ttl, n, ops)
-
-
-def _replay_cache_step(args: dict) -> str | None:
-    ok = _cache_step_run(args["cap"], args["ttl"], args["shape"], args["e0"], args["e1"], args["now"], args["is_put"], args["ki"])
-    return None if ok else "one operation on an invariant-satisfying _CallStateCache state broke the invariant / returned a wrong value"
+    return _cache_run(cap, ttl, n, ops) is None
 
 
 _SHAPES = ((), (0,), (1,), (2,), (0, 1), (1, 0), (0, 2), (2, 0), (1, 2), (2, 1))  # LRU order, oldest first
 
 
-def _cache_step_run(cap: int, ttl: int, shape: int, e0: int, e1: int, now: int, is_put: bool, ki: int) -> bool:
+def _cache_step_run(cap: int, ttl: int, shape: int, e0: int, e1: int, now: int, is_put: bool, ki: int) -> str | None:
     """Inductive step: ANY state with <= cap entries that agrees with the specification map, one operation."""
     keys = _SHAPES[_pick(shape, len(_SHAPES))]
     if len(keys) > cap:
-        return True  # not a reachable shape for this capacity
+        return None  # not a reachable shape for this capacity
     cache = st._CallStateCache(max_entries=cap, ttl=ttl)
     spec: dict = {}
     kw = _cache_kw(cache.put)
@@ -146,18 +241,23 @@ def _cache_step_run(cap: int, ttl: int, shape: int, e0: int, e1: int, now: int, 
         cache.put(_KEYS[kk][0], _KEYS[kk][1], v, exp - ttl, **kw)
         spec[kk] = (exp, v)
     if len(cache._entries) != len(keys):
-        return False
+        # e.g. a put that purges expired entries: legitimate, but then this is not the state the step was meant to start from
+        raise HarnessModelError("could not construct the intended cache state through put(): the cache dropped or merged entries")
     return _step(cache, spec, cap, ttl, now, is_put, _pick(ki, 3), 1)
 
 
-@cond(q=60, t=300, encoded=[st._CallStateCache.get, st._CallStateCache.put, st._CallStateCache._identity], bound="any cache state (<= capacity entries among 3 keys, any LRU order, any integer expiry times) x one operation; capacity 0..2, any integer ttl/now",
-      replay=_replay_cache_step, signature=lambda a, c: "C14:cache:inductive-step")
+def _replay_cache_step(args: dict) -> str | None:
+    return _replay_cache_reason(_cache_step_run(args["cap"], args["ttl"], args["shape"], args["e0"], args["e1"], args["now"], args["is_put"], args["ki"]), args)
+
+
+@cond(q=60, t=300, encoded=[st._CallStateCache.get, st._CallStateCache.put, st._CallStateCache._identity], bound="any cache state (<= capacity entries among 3 keys, any LRU order, any integer expiry times) x one operation; capacity 0..2, any integer ttl > 0, any now",
+      replay=_replay_cache_step, signature=_sig_cache("C14:cache:inductive-step", lambda a: _cache_step_run(a["cap"], a["ttl"], a["shape"], a["e0"], a["e1"], a["now"], a["is_put"], a["ki"])))
 def cache_operation_preserves_agreement_with_map(cap: int, ttl: int, shape: int, e0: int, e1: int, now: int, is_put: bool, ki: int) -> bool:
     """
-    pre: 0 <= cap <= 2 and 0 <= shape <= 9 and 0 <= ki <= 2
+    pre: 0 <= cap <= 2 and 0 <= shape <= 9 and 0 <= ki <= 2 and ttl > 0
     post: _
     """
-    return _cache_step_run(cap, ttl, shape, e0, e1, now, is_put, ki)
+    return _cache_step_run(cap, ttl, shape, e0, e1, now, is_put, ki) is None
 
 
 # ---------------------------------------------------------------------------
@@ -183,7 +283,6 @@ class _Impl:
 
 
 _OWNERS = (None, _A, AuthContext(domain="", authenticated=True, principal="anonymous"))
-_R = _A  # the requester
 _KEY = b"server-key"
 _T0 = 100
 _GARBAGE = tc.RealWorld.GARBAGE
@@ -195,14 +294,16 @@ def _app(ttl: int, cap: int):  # type: ignore[no-untyped-def]
     return tc.FakeApp(srv, {"m": _SA}, _KEY, ttl, cap)
 
 
-def _mint(i1: int, ttl: int):  # type: ignore[no-untyped-def]
+def _mint(i1: int, r: int, ttl: int):  # type: ignore[no-untyped-def]
     """Both streams are opened at t=_T0 on a helper worker H whose warm-up entries are the genuine resolved calls."""
     tc.reset(now=_T0)
     _Impl.n = 0
     helper = _app(ttl, 8)
     md1 = tc.do_init(helper, "m", _OWNERS[i1])
-    md2 = tc.do_init(helper, "m", _R)
+    md2 = tc.do_init(helper, "m", _OWNERS[r])
     entries = list(helper._call_state_cache._entries.items())  # [(key, (expires, resolved))] in init order
+    if len(entries) != 2:
+        raise HarnessModelError("the two /init calls did not leave two warm-up entries: this item's construction of cache states does not apply")
     return helper, (md1, entries[0]), (md2, entries[1])
 
 
@@ -232,33 +333,34 @@ def _invariant(app, streams, ttl: int) -> bool:  # type: ignore[no-untyped-def]
     return True
 
 
-def _transparency(i1: int, long_ttl: bool, tok_sel: int, p1: bool, p2: bool, e1: int, e2: int, d1: int, dt: int, cap: int, check_invariant: bool) -> bool:
-    i1, tok_sel = _pick(i1, 3), _pick(tok_sel, 3)
+def _transparency(i1: int, r: int, long_ttl: bool, tok_sel: int, p1: bool, p2: bool, e1: int, e2: int, d1: int, dt: int, cap: int, check_invariant: bool) -> bool:
+    i1, r, tok_sel = _pick(i1, 3), _pick(r, 3), _pick(tok_sel, 3)
     ttl = 50 if long_ttl else 0
-    helper, (md1, ent1), (md2, ent2) = _mint(i1, ttl)
-    streams = ((_OWNERS[i1], ent1), (_R, ent2))
+    req = _OWNERS[r]  # the requester: anonymous, an ordinary principal, or the anonymous lookalike ('', 'anonymous')
+    helper, (md1, ent1), (md2, ent2) = _mint(i1, r, ttl)
+    streams = ((_OWNERS[i1], ent1), (req, ent2))
     if check_invariant and not _invariant(helper, streams, ttl):
         return False  # the warm-up put of _run_stream_init_sync must establish I
     # --- worker W: arbitrary cache state satisfying I
     warm = _app(ttl, cap)
-    for present, exp, owner, (key, (_e, resolved)) in ((p1, e1, _OWNERS[i1], ent1), (p2, e2, _R, ent2)):
+    for present, exp, owner, (key, (_e, resolved)) in ((p1, e1, _OWNERS[i1], ent1), (p2, e2, req, ent2)):
         if present:
             if ttl > 0 and not (exp <= _T0 + ttl + 1):
                 return True  # not an invariant-satisfying state
             kw = {"method_name": "m"} if tc._takes(warm._call_state_cache.put, "method_name") else {}
             warm._call_state_cache.put(key[0], owner, resolved, exp - warm._call_state_cache._ttl, **kw)
     if not _invariant(warm, streams, ttl):
-        return False  # harness construction error
+        raise HarnessModelError("could not construct an invariant-satisfying cache state through put()")
     cold = _app(ttl, 0)
     # stream 2's cursor is the one refreshed by a regular turn at t = _T0 + d1 (the call token is never re-issued)
     tc.HOLD["now"] = _T0 + d1
-    cur2, _sb = tc.mint_cursor_token(_SA(b"\xffstate2"), _SA, ent2[0][0], _KEY, _R)
+    cur2, _sb = tc.mint_cursor_token(_SA(b"\xffstate2"), _SA, ent2[0][0], _KEY, req)
     cursor = [md1[tc.STATE_KEY], cur2, _GARBAGE][tok_sel]
     # a conformant client echoes the call token of the stream its cursor belongs to
     call = (md1 if tok_sel == 0 else md2)[tc.CALL_STATE_KEY]
     tc.HOLD["now"] = _T0 + dt
-    got_cold = _outcome(cold, cursor, call, _R)
-    got_warm = _outcome(warm, cursor, call, _R)
+    got_cold = _outcome(cold, cursor, call, req)
+    got_warm = _outcome(warm, cursor, call, req)
     if check_invariant:
         return _invariant(warm, streams, ttl)
     return got_cold == got_warm
@@ -268,45 +370,51 @@ SIG_TTL = "C14:cache:entry-outlives-call-token"
 
 
 def _replay_outlives(args: dict) -> str | None:
-    """Real functions, real crypto, substituted clock: a stream opened at t=100 (ttl 50) on another node; worker W
-    sees a continuation at t=100+dt (miss -> put) and another one after the call token has expired."""
+    """What a broken invariant means for clients, on real functions (real crypto, pyarrow, substituted clock): a worker
+    that served one continuation of a stream (miss -> put, or hit) must go on answering that stream's continuations
+    exactly like a worker with an empty cache - same served stream id / call state, same rejection - at the
+    counterexample's times and around the call token's expiry."""
     ttl = 50 if args["long_ttl"] else 0
-    if ttl == 0:
-        return None
-    dt = args["dt"]
-    if not (0 <= dt <= ttl):
-        dt = 2
-    t2 = _T0 + ttl + 1  # first second at which the call token is expired
-    with tc.RealWorld({"m": tc.RealStateA}, _KEY, ttl, 8, now=_T0) as w, tc.RealWorld({"m": tc.RealStateA}, _KEY, ttl, 0, now=_T0) as cold:
-        s = w.init("m", _R)
-        w.app._call_state_cache.clear()  # the /init ran on another node: W starts without the entry
-        w.clock.now = cold.clock.now = _T0 + dt
-        first = w.unpack("m", _R, s["cursor"], s["call"])
-        if first[0] != "ok":
-            return None
-        mkw = {"method_name": "m"} if tc._takes(st._mint_cursor_token, "method_name") else {}
-        cursor2, _sb = st._mint_cursor_token(first[1], tc.RealStateA, s["call_id"], _KEY, _R, **mkw)  # the turn's refreshed cursor
-        w.clock.now = cold.clock.now = t2
-        on_w = w.unpack("m", _R, cursor2, s["call"])
-        on_cold = cold.unpack("m", _R, cursor2, s["call"])
-    if on_w[0] != on_cold[0]:
-        return (
-            f"stream opened at t={_T0} with token_ttl={ttl}; worker W resolved its call token at t={_T0 + dt} (cache miss) and cached it until t={_T0 + dt + ttl}; "
-            f"the continuation at t={t2} is {'served' if on_w[0] == 'ok' else on_w[1:]} by W but answered {on_cold[1:]} by a cold worker (call token expired at t={_T0 + ttl + 1})"
-        )
+    who, owner1 = _OWNERS[args["r"]], _OWNERS[args["i1"]]
+    d = args["dt"] if 0 <= args["dt"] <= (ttl or 10**6) else 2
+    for clear in (True, False):
+        with tc.RealWorld({"m": tc.RealStateA}, _KEY, ttl, 8, now=_T0) as w, tc.RealWorld({"m": tc.RealStateA}, _KEY, ttl, 0, now=_T0) as cold:
+            s1 = w.init("m", owner1)
+            s = w.init("m", who)
+            if clear:
+                w.app._call_state_cache.clear()  # the /init calls ran on another node: W starts without the entries
+            w.clock.now = cold.clock.now = _T0 + d
+            first = w.unpack("m", who, s["cursor"], s["call"])
+            if first[0] != "ok":
+                continue
+            mkw = {"method_name": "m"} if tc._takes(st._mint_cursor_token, "method_name") else {}
+            cursor2, _sb = st._mint_cursor_token(first[1], tc.RealStateA, s["call_id"], _KEY, who, **mkw)  # the turn's refreshed cursor
+            times = sorted({_T0 + d, _T0 + d + 1, _T0 + ttl, _T0 + ttl + 1, _T0 + d + ttl, _T0 + d + ttl + 1} if ttl else {_T0 + d, _T0 + d + 1, _T0 + d + 10**6})
+            for t in times:
+                w.clock.now = cold.clock.now = t
+                for cur, call, label in ((cursor2, s["call"], "its own stream's"), (s1["cursor"], s1["call"], "stream 1's")):
+                    on_cold = cold.unpack("m", who, cur, call)
+                    on_w = w.unpack("m", who, cur, call)
+                    if _norm(on_w) != _norm(on_cold):
+                        return (
+                            f"streams opened at t={_T0} (token_ttl={ttl}){' on another node' if clear else ''}; worker W served a continuation at t={_T0 + d}; "
+                            f"requester {who!r} presenting {label} tokens at t={t} is answered {_norm(on_w)!r} by W and {_norm(on_cold)!r} by a worker with an empty cache"
+                        )
     return None
 
 
 def _replay_transparency(args: dict) -> str | None:
     """The same step on the un-stubbed functions (real crypto, pyarrow schemas, substituted clock)."""
     ttl = 50 if args["long_ttl"] else 0
-    i1, tok_sel = args["i1"], args["tok_sel"]
+    i1, tok_sel, req = args["i1"], args["tok_sel"], _OWNERS[args["r"]]
     types = {"m": tc.RealStateA}
     with tc.RealWorld(types, _KEY, ttl, 8, now=_T0) as helper, tc.RealWorld(types, _KEY, ttl, _CAP, now=_T0) as warm, tc.RealWorld(types, _KEY, ttl, 0, now=_T0) as cold:
         s1 = helper.init("m", _OWNERS[i1])
-        s2 = helper.init("m", _R)
+        s2 = helper.init("m", req)
         ents = list(helper.app._call_state_cache._entries.items())
-        for present, exp, owner, (key, (_e, resolved)) in ((args["p1"], args["e1"], _OWNERS[i1], ents[0]), (args["p2"], args["e2"], _R, ents[1])):
+        if len(ents) != 2:
+            return None
+        for present, exp, owner, (key, (_e, resolved)) in ((args["p1"], args["e1"], _OWNERS[i1], ents[0]), (args["p2"], args["e2"], req, ents[1])):
             if present:
                 if ttl > 0 and not (exp <= _T0 + ttl + 1):
                     return None
@@ -314,70 +422,99 @@ def _replay_transparency(args: dict) -> str | None:
                 warm.app._call_state_cache.put(key[0], owner, resolved, exp - warm.app._call_state_cache._ttl, **kw)
         warm.clock.now = cold.clock.now = helper.clock.now = _T0 + args["d1"]  # one module clock: the innermost world's
         mkw = {"method_name": "m"} if tc._takes(st._mint_cursor_token, "method_name") else {}
-        cur2, _sb = st._mint_cursor_token(tc.RealStateA(who="m", n=1), tc.RealStateA, s2["call_id"], _KEY, _R, **mkw)
+        cur2, _sb = st._mint_cursor_token(tc.RealStateA(who="m", n=1), tc.RealStateA, s2["call_id"], _KEY, req, **mkw)
         cursor = [s1["cursor"], cur2, tc.RealWorld.GARBAGE][tok_sel]
         call = (s1 if tok_sel == 0 else s2)["call"]
         warm.clock.now = cold.clock.now = helper.clock.now = _T0 + args["dt"]
-        on_cold, on_warm = cold.unpack("m", _R, cursor, call), warm.unpack("m", _R, cursor, call)
-
-    def norm(o):  # type: ignore[no-untyped-def]
-        return (o[0], o[1], o[2].stream_id) if o[0] == "ok" else o
-
-    if norm(on_cold) != norm(on_warm):
-        return f"the same continuation at t={_T0 + args['dt']} is answered {norm(on_warm)!r} by a worker with cache state {args!r} and {norm(on_cold)!r} by a cold worker"
+        on_cold, on_warm = cold.unpack("m", req, cursor, call), warm.unpack("m", req, cursor, call)
+    if _norm(on_cold) != _norm(on_warm):
+        return f"the same continuation of requester {req!r} at t={_T0 + args['dt']} is answered {_norm(on_warm)!r} by a worker with cache state {args!r} and {_norm(on_cold)!r} by a cold worker"
     return None
 
 
 _B_STUBS = [*tc.TOKEN_STUBS, *tc.DISPATCH_STUBS]
-_B_BOUND = "2 streams opened at t=100 (stream 1 by anonymous / the requester / ('','anonymous'), stream 2 by the requester); cursor slot: stream 1 / stream 2 / garbage, call slot: that stream's call token; W's cache: capacity %d, each stream's entry present or not with any integer expiry allowed by I; stream 2's cursor refreshed at any t1 >= 100, request at any t >= t1; ttl 0 or 50" % _CAP
+_B_BOUND = (
+    "2 streams opened at t=100: stream 1 by anonymous / an ordinary principal / ('','anonymous'), stream 2 by the requester, who is any of the same three (all 9 owner x requester pairs, incl. the pair whose "
+    "cache identities coincide); cursor slot: stream 1 / stream 2 / garbage, call slot: that stream's call token; W's cache: capacity %d, each stream's entry present or not with any integer expiry allowed by I; "
+    "stream 2's cursor refreshed at any t1 >= 100, request at any t >= t1; ttl 0 or 50" % _CAP
+)
 
 
-@cond(q=60, t=300, stubs=_B_STUBS, encoded=[aps._unpack_and_recover_state, aps._resolve_call_from_token, st._CallStateCache.get, st._CallStateCache.put], bound=_B_BOUND, replay=_replay_transparency, signature=lambda a, c: "C14:transparency:one-step")
-def warm_worker_answers_like_cold_worker(i1: int, long_ttl: bool, tok_sel: int, p1: bool, p2: bool, e1: int, e2: int, d1: int, dt: int) -> bool:
+@cond(q=90, t=400, stubs=_B_STUBS, encoded=[aps._unpack_and_recover_state, aps._resolve_call_from_token, st._CallStateCache.get, st._CallStateCache.put], bound=_B_BOUND, replay=_replay_transparency,
+      signature=lambda a, c: "C14:transparency:one-step:" + ("own-stream", "other-stream", "garbage")[1 if a.get("tok_sel") == 0 else (0 if a.get("tok_sel") == 1 else 2)])
+def warm_worker_answers_like_cold_worker(i1: int, r: int, long_ttl: bool, tok_sel: int, p1: bool, p2: bool, e1: int, e2: int, d1: int, dt: int) -> bool:
     """
-    pre: 0 <= i1 <= 2 and 0 <= tok_sel <= 2 and 0 <= d1 <= dt and d1 <= 1000000000
+    pre: 0 <= i1 <= 2 and 0 <= r <= 2 and 0 <= tok_sel <= 2 and 0 <= d1 <= dt and d1 <= 1000000000
     post: _
     """
-    return _transparency(i1, long_ttl, tok_sel, p1, p2, e1, e2, d1, dt, _CAP, False)
+    return _transparency(i1, r, long_ttl, tok_sel, p1, p2, e1, e2, d1, dt, _CAP, False)
 
 
-@cond(q=60, t=300, stubs=_B_STUBS, encoded=[aps._unpack_and_recover_state, aps._run_stream_init_sync, st._CallStateCache.put], bound=_B_BOUND, replay=_replay_outlives, signature=lambda a, c: SIG_TTL)
-def request_reestablishes_cache_invariant(i1: int, long_ttl: bool, tok_sel: int, p1: bool, p2: bool, e1: int, e2: int, d1: int, dt: int) -> bool:
+@cond(q=90, t=400, stubs=_B_STUBS, encoded=[aps._unpack_and_recover_state, aps._run_stream_init_sync, st._CallStateCache.put], bound=_B_BOUND, replay=_replay_outlives, signature=lambda a, c: SIG_TTL)
+def request_reestablishes_cache_invariant(i1: int, r: int, long_ttl: bool, tok_sel: int, p1: bool, p2: bool, e1: int, e2: int, d1: int, dt: int) -> bool:
     """
-    pre: 0 <= i1 <= 2 and 0 <= tok_sel <= 2 and 0 <= d1 <= dt and d1 <= 1000000000
+    pre: 0 <= i1 <= 2 and 0 <= r <= 2 and 0 <= tok_sel <= 2 and 0 <= d1 <= dt and d1 <= 1000000000
     post: _
     """
     if long_ttl and is_open(SIG_TTL):
         return True  # listed open finding: the ttl>0 miss-path put is carved out
-    return _transparency(i1, long_ttl, tok_sel, p1, p2, e1, e2, d1, dt, _CAP, True)
+    return _transparency(i1, r, long_ttl, tok_sel, p1, p2, e1, e2, d1, dt, _CAP, True)
 
 
 # ---------------------------------------------------------------------------
-# (c) _identity is not injective — decided exactly which identities collide
+# (c) a hit never crosses identities — the cache key's identity half together with the cursor AAD
 # ---------------------------------------------------------------------------
+# A lookup happens only after the cursor token opened under the requester's AAD, and its call id is never reused.  An
+# entry put for identity x can therefore be hit by a requester y != x only if BOTH the cursor AADs and the cache
+# identities of x and y coincide.  Decided (unbounded strings): no such pair exists among identities with NUL-free
+# domains.  `_identity` alone is not injective (anonymous vs ('', 'anonymous')); that is recorded as an observation -
+# it changes no request's outcome - and it is not required to stay that way.
+
+SIG_XID = "C14:identity:cross-identity-hit"
 
 
 def _bytes_of(x) -> bytes:  # type: ignore[no-untyped-def]
     return x.encode() if isinstance(x, str) else bytes(x)
 
 
-@task(q=40, t=120, encoded=[st._CallStateCache._identity], bound="all identities with NUL-free domain, unbounded lengths (cvc5); z3 cross-check lengths<=10", engine="smt")
-def cache_identity_collisions_are_only_anonymous_lookalikes(budget: float, replay=None) -> dict:
+def _replay_identity(x, y) -> dict:  # type: ignore[no-untyped-def]
+    """End to end on real code: x opens a stream on a warm worker; y presents x's cursor (without, then with, x's call
+    token).  Served = a hit handed y the call state minted for x."""
+    none = {"verdict": "INCONCLUSIVE", "detail": "solver witness did not reproduce on the real functions"}
+    if tc.real_identity(x) == tc.real_identity(y):
+        return none
+    for with_call in (False, True):
+        with tc.RealWorld({"m": tc.RealStateA}, _KEY, 50, 8, now=_T0) as w:
+            s = w.init("m", x)
+            got = w.unpack("m", y, s["cursor"], s["call"] if with_call else None)
+        if got[0] == "ok":
+            return {
+                "verdict": "VIOLATION",
+                "replayed": True,
+                "signature": SIG_XID,
+                "detail": f"stream opened by {x!r}; requester {y!r} presenting its cursor{' and call token' if with_call else ' (no call token: answered from the cache)'} "
+                f"is served call state {getattr(got[2].call_state, 'tag', None)!r} of stream {got[2].stream_id!r}",
+            }
+    return none
+
+
+@task(q=40, t=120, encoded=[st._CallStateCache._identity, st._compute_aad], bound="all identities with NUL-free domain, unbounded lengths (cvc5); z3 cross-check lengths<=10", engine="smt")
+def cache_key_and_cursor_aad_jointly_separate_identities(budget: float, replay=None) -> dict:
     import time
 
     fn = st._CallStateCache._identity
     res: dict = {"queries": 0, "discharged": 0, "solver_s": 0.0, "samples": []}
     if replay is not None:
-        x, y = tc.auth_from_json(replay["x"]), tc.auth_from_json(replay["y"])
-        return _replay_identity(x, y)
+        return _replay_identity(tc.auth_from_json(replay["x"]), tc.auth_from_json(replay["y"]))
     try:
-        val = tc.validate_identity_translation(fn, _bytes_of)
+        val = {"_identity": tc.validate_identity_translation(fn, _bytes_of), "_compute_aad": tc.validate_identity_translation(st._compute_aad, bytes)}
     except tc.Unsupported as e:
         return {**res, "verdict": "INCONCLUSIVE", "detail": f"construct outside the translator: {e}"}
     res["translator_validation"] = val
-    if val["n_disagree"]:
-        return {**res, "verdict": "ERROR", "detail": f"source->SMT translation disagrees with the live function: {val}"}
+    if any(v["n_disagree"] for v in val.values()):
+        return {**res, "verdict": "ERROR", "detail": f"source->SMT translation disagrees with the live functions: {str(val)[:600]}"}
     out: dict = {}
+    JOINT, SANITY, INFO, INFO2 = "joint-collision(cache identity and cursor AAD)", "sanity:two-spellings-of-anonymous-share-a-cache-identity", "info:cache-identity-collision", "info:cache-identity-collision-other-than-anonymous-lookalike"
     for sname, S, bound in tc.solvers():
         x, y = tc.SymAuth(S, "x"), tc.SymAuth(S, "y")
         ix, iy = tc.ident_terms(S, x), tc.ident_terms(S, y)
@@ -386,14 +523,22 @@ def cache_identity_collisions_are_only_anonymous_lookalikes(budget: float, repla
             # a anonymous, b authenticated with domain '' and principal 'anonymous'
             return S.And(S.Not(a[0]), b[0], b[1] == S.StringVal(""), b[2] == S.StringVal("anonymous"))
 
-        base = [tc.encode_fn(fn, S, x) == tc.encode_fn(fn, S, y), tc.nul_free_domain(S, x), tc.nul_free_domain(S, y), S.Not(tc.same_identity(S, x, y))]
-        for label, cs in (("collision-exists(expected sat)", base), ("collision-other-than-anonymous-lookalike", [*base, S.Not(S.Or(lookalike(ix, iy), lookalike(iy, ix)))])):
+        same_key = tc.encode_fn(fn, S, x) == tc.encode_fn(fn, S, y)
+        differ = [tc.nul_free_domain(S, x), tc.nul_free_domain(S, y), S.Not(tc.same_identity(S, x, y))]
+        queries = (
+            (JOINT, [same_key, tc.encode_fn(st._compute_aad, S, x) == tc.encode_fn(st._compute_aad, S, y), *differ]),
+            # non-vacuity (sat for ANY correct implementation): None and an unauthenticated context are the same caller
+            (SANITY, [same_key, x.is_none, S.Not(y.is_none), S.Not(y.authd)]),
+            (INFO, [same_key, *differ]),
+            (INFO2, [same_key, *differ, S.Not(S.Or(lookalike(ix, iy), lookalike(iy, ix)))]),
+        )
+        for label, cs in queries:
             s = S.Solver()
             if sname == "z3":
-                s.set("timeout", int(min(30.0, budget / 3) * 1000))
+                s.set("timeout", int(min(30.0, budget / 4) * 1000))
                 s.add(tc.bounded(S, x, bound + 2), tc.bounded(S, y, bound + 2))  # 'anonymous' has 9 characters
             else:
-                s.set("tlimit-per", int(min(30.0, budget / 3) * 1000))
+                s.set("tlimit-per", int(min(30.0, budget / 4) * 1000))
             s.add(*cs)
             t0 = time.monotonic()
             r = str(s.check())
@@ -411,31 +556,28 @@ def cache_identity_collisions_are_only_anonymous_lookalikes(budget: float, repla
                 res["discharged"] += 1
             res["samples"].append(smp)
             out[(sname, label)] = (r, smp)
-    lab = "collision-other-than-anonymous-lookalike"
     for sname in ("cvc5", "z3"):
-        r, smp = out[(sname, lab)]
+        r, smp = out[(sname, JOINT)]
         if r == "sat":
             if "witness" not in smp:
                 return {**res, "verdict": "INCONCLUSIVE", "detail": f"sat but witness unusable: {smp.get('witness_error')}"}
             rp = _replay_identity(tc.auth_from_json(smp["witness"]["x"]), tc.auth_from_json(smp["witness"]["y"]))
             return {**res, **rp, "cex": smp["witness"]}
-        if r != "unsat":
+        if r != "unsat" and not (sname == "z3" and r == "unknown"):
             return {**res, "verdict": "INCONCLUSIVE", "detail": f"{sname}: {r}"}
-    if out[("cvc5", "collision-exists(expected sat)")][0] != "sat":
-        return {**res, "verdict": "INCONCLUSIVE", "detail": "the known anonymous-lookalike collision was not found: encoding suspect"}
+        if r == "unknown":
+            res.setdefault("notes", []).append("z3 cross-check unknown within its limit; verdict rests on cvc5")
+    if out[("cvc5", SANITY)][0] != "sat":
+        return {**res, "verdict": "INCONCLUSIVE", "detail": "sanity query (None and an unauthenticated context share a cache identity) was not satisfiable: encoding suspect"}
     res["verdict"] = "CONFIRMED"
+    i1, i2 = out[("cvc5", INFO)], out[("cvc5", INFO2)]
     res["detail"] = (
-        "OBSERVATION: _CallStateCache._identity maps anonymous and authenticated(domain='', principal='anonymous') to the same string "
-        f"(witness {out[('cvc5', 'collision-exists(expected sat)')][1].get('witness')}); decided: no other collision between identities with NUL-free domains. "
-        "Not reachable as a cross-identity hit: the call id used as the other half of the key is authenticated under the injective AAD first and is never reused."
+        "no two distinct identities (NUL-free domains) share both the cache identity and the cursor AAD: a hit never yields call state minted for another caller. "
+        + (
+            f"OBSERVATION (not a finding, no outcome changes): _CallStateCache._identity alone is not injective (witness {i1[1].get('witness')}); "
+            f"collisions other than anonymous vs ('', 'anonymous'): {i2[0]}{' ' + str(i2[1].get('witness')) if i2[0] == 'sat' else ''}."
+            if i1[0] == "sat"
+            else f"_CallStateCache._identity alone: collision query gave {i1[0]}."
+        )
     )
     return res
-
-
-def _replay_identity(x, y) -> dict:  # type: ignore[no-untyped-def]
-    fn = st._CallStateCache._identity
-    ids = {tc.real_identity(x), tc.real_identity(y)}
-    lookalike = ids == {(False, "", ""), (True, "", "anonymous")}
-    if fn(x) == fn(y) and len(ids) == 2 and not lookalike and "\x00" not in (tc.real_identity(x)[1] + tc.real_identity(y)[1]):
-        return {"verdict": "VIOLATION", "replayed": True, "signature": "C14:identity:collision", "detail": f"_identity({x!r}) == _identity({y!r}) == {fn(x)!r}"}
-    return {"verdict": "INCONCLUSIVE", "detail": "solver witness did not reproduce on the real function"}
